@@ -87,6 +87,8 @@ def gen_program(rng, profile):
             mode = _w(rng, [('explicit', 7), ('default_unique', 1), ('plain', 2)]) if not profile.endswith('-hot') else 'explicit'
             if mode == 'explicit':
                 c['key'] = f'k{rng.randrange(nk)}'
+                if base in ('c11', 'c04') and rng.random() < 0.12:
+                    c['key'] = ''               # legal, falsy
             elif mode == 'plain':
                 c['plain'] = rng.randrange(nk)      # arg is a small int, key defaults to str(arg)
         if base == 'c11' and rng.random() < 0.3:
